@@ -123,7 +123,7 @@ def run(pp, inst, forms, R, seed):
                                 ("0.1 m", ["0.1 mol/kg", "0.1 mmol/g", "0.0001 mol/g"])):
         try:
             ref = C.create_solution(N, W, concentration=ref_text, total_quantity="10 mL")
-            stock = C("stock", "1 L", [(W, "50 mL"), (N, "100 mmol")])
+            stock = C("stock", initial_contents=[(W, "50 mL"), (N, "100 mmol")])      # unbounded: only the spelling is at issue
             ref_d = stock.dilute(N, ref_text, W)
         except Exception as e:
             R.report("C14", "spelling_rejected_at_use_site", {"site": "create_solution/dilute", "exc": type(e).__name__}, f"{ref_text!r}: {type(e).__name__}: {e}", {"a": ref_text})
